@@ -11,7 +11,12 @@ Open Scope Z_scope.
 Inductive backend := SV | MPS.
 (* which bases the sequence's channels address: rydberg_global, mw_global, raman (digital) only,
    rydberg + raman *)
-Inductive chan := ChRyd | ChXY | ChDig | ChBoth.
+Inductive chan := ChRyd | ChXY | ChDig | ChBoth
+  (* rydberg_global driven + a raman channel that is: declared but idle / played with zero amplitude
+     and non-zero detuning / played with zero amplitude, zero detuning and a phase only.  Pulser counts
+     a channel as used when amplitude OR detuning is non-zero: ChRydDet is a three-level sequence,
+     ChRydIdle and ChRydPhase are two-level ground-rydberg sequences. *)
+  | ChRydIdle | ChRydDet | ChRydPhase.
 Inductive effk := EffNone | Eff2 | Eff3.   (* effective-noise operators: none, 2x2, 3x3 *)
 
 Record feat := mkFeat {
@@ -27,7 +32,7 @@ Record feat := mkFeat {
 
 Definition is_xy (f : feat) : bool := match f_chan f with ChXY => true | _ => false end.
 Definition dim (f : feat) : Z :=
-  (match f_chan f with ChBoth => 3 | _ => 2 end) + (if f_leak f then 1 else 0).
+  (match f_chan f with ChBoth | ChRydDet => 3 | _ => 2 end) + (if f_leak f then 1 else 0).
 (* shapes of the effective noise operators handed to pulser (a leakage model needs a 3x3 one) *)
 Definition eff_shapes (f : feat) : list Z :=
   match f_eff f with Eff2 => [2] | Eff3 => [3] | EffNone => if f_leak f then [3] else [] end.
@@ -48,7 +53,8 @@ Definition lindblad_stage (f : feat) : res unit :=
 (* emu_base.pulser_adapter._extract_omega_delta_phi *)
 Definition channel_stage (f : feat) : res unit :=
   match f_chan f with
-  | ChBoth => E exc_ValueError   (* "Only single interaction type is supported." *)
+  | ChBoth | ChRydIdle | ChRydDet | ChRydPhase =>
+      E exc_ValueError   (* "Only single interaction type is supported." (one key per declared basis) *)
   | ChDig => E exc_ValueError    (* "Only ground-rydberg and mw_global(XY) channels are supported." *)
   | _ => Ok tt
   end.
@@ -72,16 +78,17 @@ Definition accepts (b : backend) (f : feat) : bool :=
 Definition supported (b : backend) (f : feat) : bool :=
   negb (f_hyper f) && negb (f_init f && f_prep f) &&
   match b with
-  | SV => (match f_chan f with ChRyd => true | _ => false end) && negb (f_leak f)
+  | SV => (match f_chan f with ChRyd | ChRydIdle | ChRydPhase => true | _ => false end) && negb (f_leak f)
           && (match f_eff f with Eff3 => false | _ => true end)
-  | MPS => (match f_chan f with ChRyd | ChXY => true | _ => false end)
+  | MPS => (match f_chan f with ChRyd | ChXY | ChRydIdle | ChRydPhase => true | _ => false end)
            && forallb (Z.eqb (dim f)) (eff_shapes f)
            && (negb (f_dmrg f) || negb (noise_nonempty f))
   end.
 
 (* ---- whole-domain enumeration ---------------------------------------------------------------- *)
 Definition all_bool (P : bool -> bool) : bool := P true && P false.
-Definition all_chan (P : chan -> bool) : bool := P ChRyd && P ChXY && P ChDig && P ChBoth.
+Definition all_chan (P : chan -> bool) : bool :=
+  P ChRyd && P ChXY && P ChDig && P ChBoth && P ChRydIdle && P ChRydDet && P ChRydPhase.
 Definition all_eff (P : effk -> bool) : bool := P EffNone && P Eff2 && P Eff3.
 Definition all_backend (P : backend -> bool) : bool := P SV && P MPS.
 Definition all_feat (P : feat -> bool) : bool :=
@@ -89,7 +96,7 @@ Definition all_feat (P : feat -> bool) : bool :=
   all_bool (fun dl => all_eff (fun ef => all_bool (fun pr => all_bool (fun ot => all_bool (fun dm =>
   all_bool (fun it => P (mkFeat c lk rx dp hy dl ef pr ot dm it)))))))))))).
 
-(* every accepted combination is supported — over the whole feature domain (2 x 6144 cases) *)
+(* every accepted combination is supported — over the whole feature domain (2 x 10752 cases) *)
 Definition table_ok : bool :=
   all_backend (fun b => all_feat (fun f => implb (accepts b f) (supported b f))).
 Definition table_ok_for (b : backend) : bool :=
